@@ -137,8 +137,15 @@ def run_part(ctx, cov):
 
 
 def replay(case):
-    _, _, (verdict, obs, _) = run_one(case["request"], case["choices"])
-    v2 = run_one(case["request"], case["choices"])[2][0]
+    ch = list(case["choices"])
+    while ch and ch[-1] == 0:
+        ch.pop()
+    try:
+        _, _, (verdict, obs, _) = run_one(case["request"], ch)
+    except sched.ReplayDivergence as e:
+        print("  note: the recorded schedule cannot be realised on this tree (%s): the violation does not reproduce" % e)
+        return None
+    v2 = run_one(case["request"], ch)[2][0]
     if (verdict is None) != (v2 is None):
         raise SystemExit("HARNESS-ERROR: schedule replay not deterministic")
     return verdict
